@@ -280,3 +280,81 @@ func zzC17_embedded() {
 	}
 	vReach("C17_embedded")
 }
+
+// ---- exported constants vs the embedded dictionaries (concrete sub-check, no quantified input) ----
+
+// zzNorm maps a dictionary name ("Origin-Host", "3GPP-IMSI") and a Go identifier ("OriginHost",
+// "TGPPIMSI") to the same key: letters and digits only, lower case, a leading 3GPP spelled TGPP.
+func zzNorm(s string) string {
+	out := make([]byte, 0, len(s))
+	for i := 0; i < len(s); i++ {
+		c := s[i]
+		switch {
+		case c >= 'A' && c <= 'Z':
+			out = append(out, c+32)
+		case (c >= 'a' && c <= 'z') || (c >= '0' && c <= '9'):
+			out = append(out, c)
+		}
+	}
+	if len(out) >= 4 && out[0] == '3' && out[1] == 'g' && out[2] == 'p' && out[3] == 'p' {
+		out[0] = 't'
+	}
+	return string(out)
+}
+
+// zzC17_constants: every exported AVP code constant whose name a dictionary defines equals one of the
+// codes the embedded dictionaries give that name; likewise command codes (by command name) and
+// application ids. The constant lists and the dictionary texts are extracted from /repo's current
+// source by the front end on every run.
+func zzC17_constants() {
+	p, err := dict.NewParser()
+	vAssume(err == nil)
+	for _, x := range dict.ZzEmbeddedXML() {
+		lerr := p.Load(zzNewReader([]byte(x)))
+		// (texts that redefine a command of an already loaded application are skipped, as Load demands)
+		_ = lerr
+	}
+	avpCodes := map[string][]uint32{}
+	cmdCodes := map[string][]uint32{}
+	appIDs := map[uint32]bool{}
+	for _, a := range p.Apps() {
+		appIDs[a.ID] = true
+		for _, d := range a.AVP {
+			k := zzNorm(d.Name)
+			avpCodes[k] = append(avpCodes[k], d.Code)
+		}
+		for _, c := range a.Command {
+			k := zzNorm(c.Name)
+			cmdCodes[k] = append(cmdCodes[k], c.Code)
+		}
+	}
+	has := func(l []uint32, v uint32) bool {
+		for _, x := range l {
+			if x == v {
+				return true
+			}
+		}
+		return false
+	}
+	matched := 0
+	for _, c := range zzAVPConsts {
+		if l, ok := avpCodes[zzNorm(c.name)]; ok {
+			matched++
+			vAssert(has(l, c.val), "exported AVP code constant equals the code in the embedded dictionaries")
+		}
+	}
+	vAssert(matched*10 >= len(zzAVPConsts)*9, "at least nine in ten AVP constants name a dictionary AVP (naming rule sanity)")
+	cm := 0
+	for _, c := range zzCmdConsts {
+		if l, ok := cmdCodes[zzNorm(c.name)]; ok {
+			cm++
+			vAssert(has(l, c.val), "exported command code constant equals the code in the embedded dictionaries")
+		}
+	}
+	vAssert(cm*10 >= len(zzCmdConsts)*9, "at least nine in ten command constants name a dictionary command")
+	for _, c := range zzAppConsts {
+		vAssert(appIDs[c.val], "exported application id constant is an application of the embedded dictionaries")
+	}
+	vObserve("matched", uint64(matched))
+	vReach("C17_constants")
+}
